@@ -32,7 +32,8 @@ func init() {
 		win("valgrace", 3, 6),
 		{World: "val", Quick: b(1, 1, 2), Thorough: b(2, 1, 3)},
 		{World: "valjail", Quick: b(2, 1, 4), Thorough: b(3, 2, 4)},
-		{World: "valbyz", Quick: b(0, 0, 3), Thorough: b(0, 0, 4)}, // today evidence against a live validator in a payout block (3rd block) ends the history: the node crashes there
+		{World: "valbyz", Quick: b(0, 0, 3), Thorough: b(0, 0, 4)},
+		{World: "valbyzdue", Quick: b(0, 0, 3), Thorough: b(1, 1, 3)}, // unbonding funds of the accused validator maturing in the explored blocks // today evidence against a live validator in a payout block (3rd block) ends the history: the node crashes there
 	}
 	regExplore("C18", runs, one(monitors.Punishment{}), func(c *Ctx) {
 		c.Ev.Coverage["c18_rule"] = "the oracle replays the vote / evidence / switch history of each trace on a bookkeeping model (sliding 24-block window recomputed from the environments, not from the node's bit array) and compares, for the last block of every history: status, jailed_until (= h+354), membership in the validator set and the power-0 update; SetCandidateOn against the jail; every stake value and every unbonding fund (each stake and each fund from a punished validator loses value-floor(value*95/100) exactly once, the rest of a stake is frozen until h+531); coin volume/reserve; total_slashed (= reward remainder + slashed base value + reserve released by slashed custom coins)"
